@@ -444,6 +444,11 @@ def check(args):
                         h.name, res["failed"][:2]))
                     continue
                 log("%s FAILED: %s" % (h.name, res["failed"][:4]))
+                if verdict.violations and not os.environ.get("VERIF_REPLAY_ALL"):
+                    # one replayed counterexample decides the verdict; the other failed harnesses
+                    # are listed in the evidence but not replayed (each replay re-runs CBMC with traces)
+                    res["replay"] = {"reproduced": None, "why": "not replayed: a violation of this property was already reproduced"}
+                    continue
                 rep = replay_counterexample(prop, h, ov, target_dir, tier_cfg, scratch, res)
                 res["replay"] = rep
                 if rep["reproduced"]:
